@@ -336,6 +336,14 @@ func (e *Exec) binop(st *State, fr *Frame, x *ssa.BinOp, site string) []*State {
 		fr.Env[x] = BVBin("bvsub", ta, tb)
 	case token.MUL:
 		fr.Env[x] = BVBin("bvmul", ta, tb)
+		if ta.Sort.K == SInt && !ta.IsConst() && !tb.IsConst() && strings.Contains(site, "/") && !strings.Contains(site, "zz_verif_") {
+			// mathematical-integer mode does not model wrap-around: a product of two symbolic machine integers in
+			// the code under test must provably stay inside int64, otherwise the claim would silently exclude it
+			r := fr.Env[x].(*Term)
+			lim := IntConst(1 << 62)
+			inRange := And(App("<=", BoolSort, App("-", IntSort, lim), r), App("<", BoolSort, r, lim))
+			e.addOblig(&Obligation{ID: e.harness + ".no_int64_overflow_in_product", Kind: "assert", PC: st.PCTerm(), Cond: inRange, Site: site, NoReplay: true})
+		}
 	case token.QUO, token.REM:
 		ok, outs := e.guard(st, Eq(tb, BVConst(0, w)), "integer divide by zero", site)
 		if ta.Sort.K == SInt && ok != nil {
